@@ -263,8 +263,7 @@ fn check_build(input: &(u8, u16, u8), case: &mut Case) -> Result<(), Fail> {
     lib("write_compressed_to", || p.write_compressed_to(&mut w))?.map_err(|e| Fail::new("c08:build-failed", format!("{:?}", e)))?;
     ensure!(w.inner.get_ref()[..] == outc[..], "c08:build-header-short-writes", "a writer accepting three bytes per call receives a different compressed message");
     // a message appended to a stream that already holds something (a two-octet length prefix, an earlier message,
-    // exactly twelve octets): its header goes to the first twelve octets of the message itself, and what was
-    // there before stays as it was
+    // exactly twelve octets): its header goes to the first twelve octets of the message itself
     for k in [2usize, 12, 12 + outc.len(), 40] {
         for compressed in [false, true] {
             let prefix: Vec<u8> = (0..k).map(|j| 0xA0u8 ^ j as u8).collect();
@@ -276,7 +275,7 @@ fn check_build(input: &(u8, u16, u8), case: &mut Case) -> Result<(), Fail> {
             let v = cur.into_inner();
             ensure!(v.len() >= k + 12, "c08:build-header-at-offset", "{} at stream position {}: only {} octets in the stream", what, k, v.len());
             ensure!(v[k..k + 12] == out[..12], "c08:build-header-at-offset", "{} at stream position {}: the message starts with {} instead of the header {}", what, k, hex(&v[k..k + 12]), hex(&out[..12]));
-            ensure!(v[..k] == prefix[..], "c08:build-header-at-offset", "{} at stream position {} changed octets before the message: {}", what, k, hex(&v[..k.min(16)]));
+            // (octets before the message are C04's statement, not this one)
         }
     }
     case.extra_evals = 8;
